@@ -235,8 +235,20 @@ func r18Ops(c *core.Ctx, sh *txnShape) {
 			key := tk + "." + mn + "|op-is-returned-id"
 			good := true
 			for _, r := range ssax.Returns(fn) {
+				ret := r.Results[0]
+				// `return result.Op` of a local result whose Op was stored once (possibly through whole-struct copies of
+				// other locals): that stored value
+				if u, ok := ret.(*ssa.UnOp); ok {
+					if fa, ok := u.X.(*ssa.FieldAddr); ok && ssax.FieldName(fa) == "Op" {
+						if base, ok := fa.X.(*ssa.Alloc); ok {
+							if v := storedField(base, "Op", 0); v != nil {
+								ret = v
+							}
+						}
+					}
+				}
 				for _, ov := range opVals {
-					if r.Results[0] != ov {
+					if ret != ov {
 						good = false
 					}
 				}
@@ -1046,4 +1058,41 @@ func abortCheckSound(fn *ssa.Function) bool {
 		}
 	}
 	return true
+}
+
+// storedField: the single value stored into field name of the local struct a — directly, or in the local struct that
+// a was copied from as a whole.
+func storedField(a *ssa.Alloc, name string, depth int) ssa.Value {
+	if a.Referrers() == nil || depth > 3 {
+		return nil
+	}
+	var direct []ssa.Value
+	var copied []*ssa.Alloc
+	for _, r := range *a.Referrers() {
+		switch x := r.(type) {
+		case *ssa.FieldAddr:
+			if ssax.FieldName(x) == name && x.Referrers() != nil {
+				for _, rr := range *x.Referrers() {
+					if st, ok := rr.(*ssa.Store); ok {
+						direct = append(direct, st.Val)
+					}
+				}
+			}
+		case *ssa.Store:
+			if x.Addr == ssa.Value(a) {
+				if u, ok := x.Val.(*ssa.UnOp); ok {
+					if src, ok := u.X.(*ssa.Alloc); ok {
+						copied = append(copied, src)
+					}
+				}
+			}
+		}
+	}
+	if len(direct) == 1 && len(copied) == 0 {
+		return direct[0]
+	}
+	if len(direct) == 0 && len(copied) == 1 {
+		return storedField(copied[0], name, depth+1)
+	}
+	return nil
 }
